@@ -24,13 +24,29 @@ OBLIGATIONS = [NS + t for t in [
     "success_state_is_last_answer", "success_state_is_eval", "backtrack_success_state_is_eval",
     "backtrack_success_armijo", "lemarechal_success_armijo_wolfe", "fletcher_success_armijo_strong_wolfe",
     "generated_predicates_meaning",
-    "success_step_positive", "morethuente_success_step_positive_partial", "morethuente_step_zero_reachable",
+    "success_step_positive",
     "evals_per_get_le", "evalsBound_default",
+    # More-Thuente: success => Armijo + strong Wolfe (since 3b214f8); CG_DESCENT: the exact disjunction a success implies, with a
+    # kernel-checked model run of the exit on which no acceptance condition holds
+    "morethuente_success_conditions", "morethuente_success_step_nonneg", "morethuente_success_step_positive",
+    "morethuente_zero_step_accepted_if_inconsistent",
+    # More-Thuente before the repair 3b214f8 (old exit rule as a def) next to the present rule on the same runs
+    "morethuente_at_stpmax_pre3b214f8_and_now", "morethuente_at_stpmin_pre3b214f8_and_now", "morethuente_step_zero_pre3b214f8",
+    "cgdescent_success_cases", "cgdescent_success_within_budget", "cgdescent_success_step_nonneg",
+    "cgdescent_success_step_positive", "cgdescent_bracket_failed_reachable", "cgdescent_zero_step_tried",
+    "cgdescent_zero_step_accepted_if_inconsistent",
+    # convex quadratics along the line, exact arithmetic
+    "quadratic_acceptance_intervals", "quadratic_minimizer_accepted_iff", "interpolation_exact_on_quadratics",
+    "backtrack_succeeds_on_quadratic", "lemarechal_succeeds_on_quadratic", "lemarechal_quadratic_overshoot_exact_step",
+    "fletcher_succeeds_on_quadratic", "fletcher_quadratic_overshoot_exact_step",
+    "morethuente_quadratic_overshoot_partial", "morethuente_quadratic_no_undershoot_partial", "cgdescent_succeeds_on_quadratic", "cgdescent_quadratic_overshoot_exact_step",
 ]]
 TRUSTED = [
-    "Lean 4.33.0 kernel; Mathlib modules imported by Proofs/LSearch.lean (Mathlib.Algebra.Order.Field.Basic, Tactic.Linarith, Tactic.Ring)",
+    "Lean 4.33.0 kernel; Mathlib modules imported by Proofs/LSearch*.lean (Mathlib.Algebra.Order.Field.Basic, Tactic.Linarith, Tactic.Ring, "
+    "Tactic.FieldSimp)",
     "axioms: at most propext, Classical.choice, Quot.sound (audited per theorem on every run); `decide +kernel` only for the closed "
-    "non-vacuity examples / the model witness over Q",
+    "non-vacuity examples / the model witnesses over Q (in these the square root of lsearch_step_t::cubic is `ratSqrt`, exact on squares "
+    "of rationals: the witnesses that reach `cubic` do so on quadratic data only, where the radicand is such a square)",
     "tools/props/c07_translate.py (C++ scalar expression -> Lean) for the generated predicates; the generated file "
     "Gen/LsPredicates.lean is the only copy of has_armijo/has_wolfe/has_strong_wolfe/has_approx_*/has_descent/stpmin/stpmax",
     "hand-written model NanoVerif/Model/LSearch.lean of lsearchk.cpp, lsearchk/*.cpp, solver/lstep.cpp; tied to the code by the "
@@ -45,20 +61,41 @@ ASSUMPTIONS = [
     "the line function is an oracle phi(k, t) = (value, slope, valid) which may even answer inconsistently; the interpolation formula, "
     "lsearch_step_t::cubic and std::isfinite are arbitrary functions in the theorems (the step is clamped afterwards)",
     "'finite' has no meaning over a field: success_step_positive proves t > 0 for backtrack/LeMarechal/Fletcher; finiteness of the "
-    "returned step is checked by the oracle only; for More-Thuente only t >= 0 is proved (t = 0 is reachable in the model with an "
-    "arbitrary interpolation function: morethuente_step_zero_reachable), for CG_DESCENT positivity is checked by the oracle only",
-    "the two clauses about convex quadratics ('all five succeed', 'More-Thuente / CG_DESCENT satisfy their advertised conditions') are "
-    "floating-point convergence claims: checked by the oracle only, with the per-method parameters (safeguard, tau1, tau23, delta, "
+    "returned step is checked by the oracle only; for More-Thuente and CG_DESCENT t >= 0 for every oracle and t > 0 for every oracle "
+    "that answers the slope of the origin when asked at step 0 (morethuente_success_step_positive, cgdescent_success_step_positive; "
+    "both searches can evaluate at step 0 - cgdescent_zero_step_tried is replayed in corpus/C07 section 7 - and an inconsistent oracle "
+    "gets it accepted: *_zero_step_accepted_if_inconsistent)",
+    "More-Thuente (since the repair 3b214f8 of /repo: the convergence test is evaluated first and is the only success exit): success => "
+    "Armijo + strong Wolfe for every oracle (morethuente_success_conditions); the old rule (five success exits) survives only as a def in "
+    "Props/C07.lean with three kernel-checked runs labelled pre-3b214f8. CG_DESCENT advertises (approximate) Wolfe but reports success "
+    "also from an exit on which no condition was tested: cgdescent_success_cases (Wolfe | approximate Wolfe | 'bracketing failed': "
+    "b.g < 0 and (more than max_iterations evaluations or the interval not wider than stpmin)) is the exact disjunction, for every "
+    "oracle; CG_DESCENT's parameters are assumed in their registered domains (0 <= epsilon, 0 < ro, 0 < theta < 1)",
+    "the clauses about convex quadratics ('all five succeed', 'More-Thuente / CG_DESCENT satisfy their advertised conditions') are "
+    "convergence claims. In exact arithmetic for phi(t) = f0 + g0 t + h t^2/2: the acceptance intervals, 'Armijo at the minimiser iff "
+    "c1 <= 1/2' (this is why the searches fail for c1 > 1/2: known findings), exactness of the quadratic/secant/cubic interpolation, "
+    "success of backtracking within an explicit k iterations for every t0 and every interpolation function, success of CG_DESCENT "
+    "for every t0 (given ro^K t1 >= t* for some K < max_iterations) and success of LeMarechal for every t0 (exact interpolation, "
+    "explicit budget k + J + 3 of expansions and clamped interpolations), success of Fletcher for every t0 (exact interpolation, "
+    "c1 < 1/2, explicit budgets k of extrapolations and J of clamped zoom steps) are proved; for More-Thuente "
+    "every first trial that does not undershoot ((1 - c2) t* <= t1) is proved to succeed within two evaluations - at t1, at t*, or at "
+    "the minimiser (1 - c1) t* of the modified function - (`_partial`: the extrapolation phase from an undershooting first trial is "
+    "missing, and the preamble is assumed not to triple the step; when t* < stpmin the search now fails honestly at stpmin - "
+    "morethuente_at_stpmin_pre3b214f8_and_now - so the 'succeed' clause is false there even in exact arithmetic). In floating point they are checked by the oracle only, with the per-method parameters (safeguard, tau1, tau23, delta, "
     "cgdescent::*) at their defaults since those are not part of the property's quantifier, and 'succeed' only when the search has a "
     "budget max_iterations >= 100 (default 128): with a smaller budget a search that exhausts its own iteration budget fails honestly "
     "(e.g. LeMarechal/Fletcher never enter their loop for max_iterations = 1); such failures are counted, not flagged",
-    "Armijo is not checked for More-Thuente / CG_DESCENT successes on non-quadratic functions (the statement does not promise it)",
-    "open known findings (KNOWN_FINDINGS.json, matched by key): CG_DESCENT success from its 'bracketing failed' exit when "
-    "max_iterations <= 10; honest failures on convex quadratics at the ends of the (c1,c2) domain (c1 >= 0.5, c2 <= 1e-6)",
+    "the oracle checks Armijo + strong Wolfe for every More-Thuente success (all functions: what the repaired code guarantees, more than "
+    "the statement asks); (approximate) Wolfe is checked for CG_DESCENT successes on convex quadratics only (the statement does not "
+    "promise it elsewhere); the 'succeeds on convex quadratics' clause is demanded for t0 in [1e-3, 1e3] or non-finite only (the "
+    "statement's range; t0 = 0, negative or denormal-size initial steps are generated for the other clauses)",
+    "open known findings (KNOWN_FINDINGS.json, matched by key): CG_DESCENT success from its 'bracketing failed' exit (more than "
+    "max_iterations evaluations); honest failures on convex quadratics at the ends of the (c1,c2) domain (c1 >= 0.5, c2 <= 1e-6)",
 ]
 RULE = ("per op one call of lsearchk_t::get: method x interpolation x max_iterations in {1..10000} x (c1,c2) over the domain (standard pairs, "
         "domain ends, nearly equal) x per-method parameters (defaults or random in their domains) x t0 in [1e-3,1e3] + {NaN, +-inf, 0, <0} x "
-        "objective (22 registered smooth functions at 1,2,3,4,8,16 dims; random convex quadratics 1..16 dims, cond <= 1e6, scale 1e-3..1e3) x "
+        "objective (22 registered smooth functions at 1,2,3,4,8,16 dims; random convex quadratics 1..16 dims, cond <= 1e6, scale 1e-3..1e3; "
+        "plus 1/12 as many random 1-D C1 piecewise-cubic Hermite line functions, non-convex, user-supplied through the harness kind `herm`) x "
         "x0 in boxes of radius 1e-2..1e3 x direction (negative gradient, perturbed negative gradient, quasi-Newton-like SPD image, random "
         "explicit, non-descent: +gradient, zero, orthogonal, component-wise flipped); corpus first, then the systematic grid "
         "(5 methods x 3 interpolations x 7 initial steps x 3 objectives x descent/ascent), then random; an op is non-trivial when its "
@@ -165,6 +202,31 @@ def gen_function(rng):
     return f"fn {fid} {dims} {rng.choice([1, 10, 100])}", actual_dims(fid, dims)
 
 
+def gen_hermite(rng):
+    """a random 1-D C1 line function (piecewise-cubic Hermite interpolant, harness function kind `herm`): 2..5 knots, in general
+    neither convex nor monotone - it drives the bracketing searches through branches the registered functions rarely reach.
+    Returns (function spec, x0, direction spec)"""
+    k = rng.range(2, 5)
+    ts = [0.0]
+    for _ in range(k - 1):
+        ts.append(ts[-1] + 10 ** rng.uniform(-2, 1))
+    if rng.chance(0.3):
+        off = rng.uniform(-1, 1)
+        ts = [t + off for t in ts]
+    scale = 10 ** rng.uniform(-2, 2)
+    flat = []
+    for i, t in enumerate(ts):
+        f = scale * rng.uniform(-1, 1)
+        g = scale * rng.uniform(-1, 1) * 10 ** rng.uniform(-1, 1)
+        if i == 0 and rng.chance(0.8):
+            g = -abs(g)
+        flat += [t, f, g]
+    curv = [rng.choice([0.0, 1.0, scale * 10 ** rng.uniform(-2, 2)]) for _ in range(2)]
+    x0 = rng.choice([ts[0], ts[0], rng.uniform(ts[0], ts[-1])])
+    d = rng.choice([1.0, 10 ** rng.uniform(-1, 1), 10 ** rng.uniform(-3, 3), -1.0])
+    return "herm %s %s %s" % (f2h(curv[0]), f2h(curv[1]), lst(flat, f2h)), [x0], "explicit " + lst([d], f2h)
+
+
 def gen_direction(rng, n):
     k = rng.below(20)
     if k < 5:
@@ -209,6 +271,12 @@ def gen(rng, tier):
         x0 = [rng.uniform(-radius, radius) for _ in range(n)]
         ops.append(make_op(method, interp, gen_maxit(rng), gen_c12(rng), gen_params(rng), gen_t0(rng), fspec, x0,
                            gen_direction(rng, n)))
+    # user-supplied 1-D line functions (from a forked stream, appended: the ops above are the same as before this family existed)
+    rh = rng.fork()
+    for _ in range(count // 12):
+        fspec, x0, direction = gen_hermite(rh)
+        ops.append(make_op(rh.choice(METHODS), rh.choice(INTERPS), gen_maxit(rh), gen_c12(rh), gen_params(rh), gen_t0(rh), fspec, x0,
+                           direction))
     return ops
 
 
@@ -228,6 +296,9 @@ class Op:
         self.fkind = t.s()
         if self.fkind == "fn":
             self.fid = t.s(); self.dims = t.int(); self.summands = t.int()
+        elif self.fkind == "herm":
+            # user-supplied 1-D C1 function (piecewise-cubic Hermite interpolant): replays of the model witnesses of Props/C07.lean
+            self.fid = "herm"; self.dims = 1; t.s(); t.s(); self.knots = t.fs()
         else:
             self.fid = "quad"; self.dims = t.int(); t.s(); t.s(); t.s()
         self.x0 = t.fs()
@@ -296,7 +367,10 @@ def oracle(aug, res):
             return f"[nondescent-step-changed] {m}: returned step {r.t!r} != given {op.t0!r}"
         return None
     if not r.succ:
-        if r.cq and op.maxit >= BUDGET_FOR_SUCCESS_CLAUSE and op.default_params():
+        # the success clause is claimed for t0 in [1e-3, 1e3] or non-finite (the statement's quantifier); the boundary-biased initial
+        # steps outside it (0, negative, 1e-300, 2.3e-15, 1e300: clamped to stpmin() or 1) are generated for the other clauses only
+        t0_in_range = op.t0 != op.t0 or abs(op.t0) == float("inf") or 1e-3 <= op.t0 <= 1e3
+        if r.cq and op.maxit >= BUDGET_FOR_SUCCESS_CLAUSE and op.default_params() and t0_in_range:
             return (f"[{m}-fails-on-convex-quadratic/{tolerance_class(op.c1, op.c2)}] failure on a convex quadratic along a "
                     f"descent direction (max_iterations={op.maxit}, t0={op.t0!r}, c1={op.c1!r}, c2={op.c2!r}, {r.n} evaluations, "
                     f"returned t={r.t!r})")
@@ -323,12 +397,14 @@ def oracle(aug, res):
     # the clause about convex quadratics is checked with the per-method parameters at their defaults (they are not part of
     # the property's quantifier); the clause about backtrack/LeMarechal/Fletcher holds for every configuration
     cq = r.cq and op.default_params()
-    if m in ("backtrack", "lemarechal", "fletcher") or (m == "morethuente" and cq):
+    # backtrack/LeMarechal/Fletcher: the statement; More-Thuente: since the repair 3b214f8 its only success exit is the convergence
+    # test, Armijo + strong Wolfe for every function (Props/C07.lean: morethuente_success_conditions), so it is checked like Fletcher
+    if m in ("backtrack", "lemarechal", "fletcher", "morethuente"):
         if not armijo:
             why.append(f"Armijo fails: f={f!r} > f0 + t c1 g0.d = {f0 + t * c1 * dg0!r}")
     if m == "lemarechal" and not wolfe:
         why.append(f"Wolfe fails: g.d={dg!r} < c2 g0.d = {c2 * dg0!r}")
-    if (m == "fletcher" or (m == "morethuente" and cq)) and not swolfe:
+    if m in ("fletcher", "morethuente") and not swolfe:
         why.append(f"strong Wolfe fails: |g.d|={abs(dg)!r} > c2 |g0.d| = {c2 * abs(dg0)!r}")
     if m == "cgdescent" and cq:
         epsk = op.cgeps * abs(f0)
@@ -336,11 +412,13 @@ def oracle(aug, res):
         if not ((armijo and wolfe) or approx):
             why.append(f"neither Wolfe nor approximate Wolfe: f={f!r} f0={f0!r} g.d={dg!r} g0.d={dg0!r} eps_k={epsk!r}")
     if why:
-        cls = "on-convex-quadratic" if m in ("morethuente", "cgdescent") else "advertised-condition"
-        if m == "cgdescent" and op.maxit > 10:
-            # the known finding (success from the 'bracketing failed' exit of interval_t::done when the budget runs out) is
-            # keyed without suffix and was only ever seen for max_iterations <= 10; anything else is a new violation
-            cls += "/max_iterations>10"
+        cls = "on-convex-quadratic" if m == "cgdescent" else "advertised-condition"
+        if m == "cgdescent" and r.n <= op.maxit:
+            # the known finding is CG_DESCENT's 'bracketing failed' exit of interval_t::done, which needs the shared budget
+            # params.m_max_iterations exhausted, i.e. more than max_iterations evaluations (Props/C07.lean: cgdescent_success_cases,
+            # cgdescent_success_within_budget; the only other way, an interval [a, b] not wider than stpmin(), has never been
+            # observed); a success without Wolfe / approximate Wolfe within the budget is a new violation
+            cls += "/within-budget"
         return (f"[{m}-success-violates-{cls}] t={t!r} c1={c1!r} c2={c2!r} max_iterations={op.maxit} "
                 f"({r.n} evaluations): " + "; ".join(why))
     return None
@@ -388,7 +466,7 @@ def distribution(ops):
         for k in (f"method/{op.method}", f"direction/{op.dkind}", f"interp/{op.interp}",
                   "t0/" + ("nonfinite" if op.t0 != op.t0 or abs(op.t0) == float("inf") else "finite"),
                   "maxit/" + ("1" if op.maxit == 1 else "2-99" if op.maxit < 100 else "100+"),
-                  "objective/" + ("quad" if op.fkind == "quad" else "registered")):
+                  "objective/" + ("quad" if op.fkind == "quad" else "hermite" if op.fkind == "herm" else "registered")):
             d[k] = d.get(k, 0) + 1
     return d
 
